@@ -318,6 +318,7 @@ def run(ch: Checker) -> None:
     ch.rule('C02.16', 'HttpParser.headers is None for a well-formed message without header fields: every use of it as an object is behind a branch that found it present, and no method asserts that it is there', 4)
     from .common import optional_field_check
     optional_field_check(ch, 'C02.16', 'HttpParser', 'self.headers', 'a request line followed directly by the empty line has no header fields and is still a request to forward')
+    ch.import_rules('C10', {'C10.2': 'C02.19'}, 'a request at a later position on the connection reaches the origin only if the upstream descriptor is re-registered for writing when it is queued, i.e. if the loop\'s record of what is registered follows every register / modify')
     ch.import_rules('C11', {'C11.11': 'C02.18'}, 'a request sent over a TLS client connection is forwarded whole only if one receive covers a whole TLS record')
     ch.import_rules('C11', {'C11.9': 'C02.17'}, 'a request is forwarded however its bytes were segmented only if an incomplete TLS record on the client side means "read again", in the base handler as well as in the overriding one')
     ch.import_rules('C01', {'C01.2': 'C02.13', 'C01.3': 'C02.14'}, 'the body reaches the origin byte-identical only if the connection buffer sends exactly what was queued, also on short writes')
